@@ -8,7 +8,7 @@ use syn::spanned::Spanned;
 use syn::{Expr, Lit, Meta};
 
 pub fn info<T: ToTokens + Spanned>(n: &T) -> Value {
-    json!({"span": span_json(n.span()), "toks": n.to_token_stream().to_string()})
+    json!({"span": span_json(n.span()), "toks": crate::util::toks_explicit(n.to_token_stream())})
 }
 
 pub fn path(p: &syn::Path) -> Value {
